@@ -28,7 +28,7 @@ for sid in ids:
         print(sid, "never detected; skipped"); continue
     # the property's own check first, then at most one more
     own = meta["breaks_property"]
-    checks = ([own] if own in checks else []) + [c for c in checks if c != own][:1 if own in checks else 2]
+    checks = [own] if own in checks else checks[:1]
     r = sh(f"git -C {R}/repo apply /verif/seeded/{sid}/patch.diff || git -C {R}/repo apply -3 /verif/seeded/{sid}/patch.diff")
     if r.returncode != 0:
         print(sid, "PATCH-DOES-NOT-APPLY"); sh(f"git -C {R}/repo reset --hard -q"); continue
